@@ -10,6 +10,34 @@ import torch
 from harness import common as C
 from harness import encoders as H
 
+# CLAUSES of the property (properties.jsonl C13), the oracle keys that judge them, the generator kinds that exercise them
+CLAUSES = [
+    # statement
+    "per-cell: embedding of (r, c) depends only on that cell, the parameters, that column's statistics "
+    "-> keys leak:<cls>, same-cell-differs:<cls>, stats-leak:<cls>, affine-ref:<cls>; cases kind=enc with perts / "
+    "stats_pert / probes",
+    "permuting rows permutes the output -> key row-select:<cls>; cases kind=enc with sel (perm / subset / duplicates)",
+    "no NA strategy: missing cell -> zero vector before any post-module -> key na-none-nonzero:<cls>; kind=enc, "
+    "na=None, missing cells, both parameter modes, Tap post-module",
+    "with a strategy: embedded as the replacement value of that column would be -> key na-strategy-mismatch:<cls>:<na>; "
+    "kind=enc, na!=None, imputed twin",
+    "senseless strategy/stype pairs rejected at construction -> keys inadmissible-strategy-accepted:<route>, "
+    "admissible-strategy-rejected:..; kind=reject x 4 routes (direct, lazy, stypewise, model)",
+    "encoding never modifies the tensors it is given -> key input-mutated:<cls>; every call of kind=enc "
+    "(fresh tensors and views of larger tensors)",
+    "total on its stype's inputs (function) -> keys raises:<cls>:<stage>, shape:<cls>, non-finite:<cls>; known: "
+    "timestamp-na-none-missing-raises, timestamp-year-below-min-raises",
+    # quantifier
+    "all encoder classes x admissible NA strategies -> generate() cycles KINDS x NA_ADMISSIBLE; sanity()",
+    "any missing pattern, values outside the training range, unseen categories (-1) -> gen_cell",
+    "all cells (r, c), all replacement values -> perts drawn over all cells incl. to/from missing",
+    "evaluation mode, any parameter initialisation -> params in {noise, reset}",
+    # signature (every parameter the quantifier does not exclude, drawn away from its default): case['how']
+    "constructor: positional vs keyword; post_module None / bare module / Sequential; mode, n_bins, out_size default "
+    "and non-default; forward(feat) vs forward(feat, col_names); __call__ vs .forward; after .to('cpu') / .cpu(); "
+    "input a fresh tensor vs a view / row-selection of a larger one -> stats()['how'], sanity()",
+]
+
 PROP = "C13"
 HEADER = ("From Coq Require Import QArith.\n"
           "Require Import PF.Gen.Tables PF.Model.Encoders.")
@@ -160,11 +188,14 @@ def gen_enc_case(rng, tier, cls=None):
     kw = {}
     if cls == "MultiCategoricalEmbeddingEncoder":
         kw["mode"] = rng.pick(["mean", "sum", "max"])
-    if cls == "LinearPeriodicEncoder":
-        kw["n_bins"] = rng.randint(1, 3)
-    if cls == "TimestampEncoder":
-        kw["out_size"] = rng.pick([2, 4])
+    if cls == "LinearPeriodicEncoder" and not rng.chance(0.2):
+        kw["n_bins"] = rng.randint(1, 3)                  # else the default (16)
+    if cls == "TimestampEncoder" and not rng.chance(0.2):
+        kw["out_size"] = rng.pick([2, 4])                 # else the default (8)
     f64 = cls != "LinearBucketEncoder" and not rng.chance(0.2)
+    how = {"ctor": rng.pick(["kw", "kw", "pos"]), "tap": not rng.chance(0.2), "names": rng.chance(0.4),
+           "entry": rng.pick(["call", "call", "forward"]), "move": rng.pick([None, None, "to", "cpu"]),
+           "repr": rng.pick(["fresh", "fresh", "view"])}
     stats = [gen_stats(rng, st) for _ in range(ncols)]
     miss_p = rng.pick([0.0, 0.2, 0.4])
     if cls == "TimestampEncoder" and na is None and not rng.chance(0.5):
@@ -189,9 +220,12 @@ def gen_enc_case(rng, tier, cls=None):
             lo = min(s2["YEAR_RANGE"][0], stats[j]["YEAR_RANGE"][0])      # keep every year in the domain
             s2["YEAR_RANGE"] = [lo - 1, max(s2["YEAR_RANGE"][1], stats[j]["YEAR_RANGE"][1])]
         stats_pert = [j, s2]
-    return {"kind": "enc", "cls": cls, "stype": st, "kw": kw, "na": na, "post": rng.pick(H.POSTS), "channels": ch,
+    post = rng.pick(H.POSTS)
+    if not how["tap"]:
+        post = None                                       # post_module=None: the output is the pre-post value
+    return {"kind": "enc", "how": how, "cls": cls, "stype": st, "kw": kw, "na": na, "post": post, "channels": ch,
             "f64": f64, "stats": stats, "feat": feat, "ncols": ncols, "perts": perts, "sel": sel,
-            "stats_pert": stats_pert, "params": "reset" if rng.chance(0.3) else "noise",
+            "stats_pert": stats_pert if how["tap"] else None, "params": "reset" if rng.chance(0.3) else "noise",
             "seed": rng.randint(0, 10 ** 6)}
 
 
@@ -225,16 +259,33 @@ def emb_dims(case):
 
 
 def to_lib(case, cells):
+    """the encoder input; how.repr == 'view': rows 1.. of a tensor / container with one more leading row
+    (non-zero storage offset, shared storage) -- what row selection of a TensorFrame hands to an encoder"""
+    if case.get("how", {}).get("repr") == "view" and cells:
+        big = H.feat_to_lib(case["stype"], [cells[-1]] + cells, case["ncols"], emb_dims(case))
+        return big[1:]
     return H.feat_to_lib(case["stype"], cells, case["ncols"], emb_dims(case))
+
+
+HOW = {}        # the calling convention of the case being run (set by run_enc)
 
 
 def call(enc, tap, feat):
     """(final output, value entering the post-module, input unchanged?)"""
     snap = H.snapshot(feat)
-    tap.seen = None
+    is_tap = isinstance(tap, H.Tap)
+    if is_tap:
+        tap.seen = None
+    f = enc.forward if HOW.get("entry") == "forward" else enc
     with torch.no_grad():
-        out = enc(feat)
-    return out, tap.seen, H.unchanged(feat, snap)
+        if HOW.get("names"):
+            ncols = feat.shape[1] if not isinstance(feat, dict) else None
+            out = f(feat, [f"col{j}" for j in range(ncols)])
+        else:
+            out = f(feat)
+    # without the tap (post_module None): the output IS the value before any post-module
+    pre = tap.seen if is_tap else (out if tap is None else None)
+    return out, pre, H.unchanged(feat, snap)
 
 
 def changed_cells(a, b):
@@ -394,9 +445,17 @@ def run_enc(case):
     obs = {"stage": None}
     try:
         torch.manual_seed(case["seed"])
+        how = case.get("how") or {}
+        HOW.clear()
+        HOW.update(how)
         enc, tap = H.build_encoder({"cls": case["cls"], "na": case["na"], "post": case["post"], "kw": case["kw"]},
-                                   case["channels"], [H.stats_to_lib(s) for s in case["stats"]], st)
+                                   case["channels"], [H.stats_to_lib(s) for s in case["stats"]], st,
+                                   ctor=how.get("ctor", "kw"), tap=how.get("tap", True))
         set_params(case, enc)
+        if how.get("move") == "to":
+            enc = enc.to("cpu")
+        elif how.get("move") == "cpu":
+            enc = enc.cpu()
         enc.eval()
     except Exception as ex:
         return {"ok": False, "stage": "construct", "exc": C.exc_name(ex), "msg": str(ex)[:300], "tb": C.fmt_exc()}
@@ -693,7 +752,7 @@ def nontrivial_sig(case, obs):
 def stats(cases, obss):
     d = {"classes": {}, "na": {}, "post": {}, "rows": {}, "cols": {}, "f64": 0, "raised": 0, "missing_cells": 0,
          "cells": 0, "perturbations": 0, "perturbations_effective": 0, "reject_cases": 0, "total": 0,
-         "param_modes": {}, "numeric_terms": {}, "missing_embedding_reset_mode": 0}
+         "param_modes": {}, "numeric_terms": {}, "missing_embedding_reset_mode": 0, "how": {}, "kw_defaults": 0}
     for c, o in zip(cases, obss):
         if c is None:
             continue
@@ -708,6 +767,10 @@ def stats(cases, obss):
         d["cols"][c["ncols"]] = d["cols"].get(c["ncols"], 0) + 1
         d["f64"] += bool(c["f64"])
         d["raised"] += not o.get("ok", False)
+        for k, v in (c.get("how") or {}).items():
+            d["how"][f"{k}={v}"] = d["how"].get(f"{k}={v}", 0) + 1
+        d["kw_defaults"] += (c["cls"] == "LinearPeriodicEncoder" and "n_bins" not in c["kw"]) or \
+                            (c["cls"] == "TimestampEncoder" and "out_size" not in c["kw"])
         d["param_modes"][c.get("params", "noise")] = d["param_modes"].get(c.get("params", "noise"), 0) + 1
         if o.get("real_params") is not None:
             d["numeric_terms"][c["cls"]] = d["numeric_terms"].get(c["cls"], 0) + 1
@@ -747,6 +810,13 @@ def sanity(cases, obss):
         probs.append("no missing cell / no empty batch drawn")
     if d["perturbations"] and d["perturbations_effective"] < 0.5 * d["perturbations"]:
         probs.append("fewer than half of the single-cell perturbations changed anything")
+    if n >= 200:
+        for hv in ("ctor=kw", "ctor=pos", "tap=True", "tap=False", "names=True", "names=False", "entry=call",
+                   "entry=forward", "move=None", "move=to", "move=cpu", "repr=fresh", "repr=view"):
+            if d["how"].get(hv, 0) == 0:
+                probs.append(f"calling convention {hv} never drawn")
+        if d["kw_defaults"] == 0:
+            probs.append("default n_bins / out_size never drawn")
     if n >= 200 and d["missing_embedding_reset_mode"] == 0:
         probs.append("missing categorical / multicategorical cell never encoded with reset_parameters() alone")
     if n >= 200 and not d["numeric_terms"]:
@@ -784,7 +854,7 @@ def coq_encoder(case):
     if cls == "ExcelFormerEncoder":
         return ("(EExcel QS " + " ".join(f"(gmat {k} 0 {n(nc)} {n(ch)})" for k in range(4)) + ")")
     if cls == "LinearPeriodicEncoder":
-        nb = case["kw"]["n_bins"]
+        nb = case["kw"].get("n_bins", 16)
         return (f"(EPeriodic QS (gmat 0 0 {n(nc)} {n(nb)}) " +
                 C.clist(range(nc), lambda j: f"gmat 4 {j} {n(2 * nb)} {n(ch)}") + ")")
     if cls == "LinearBucketEncoder":
@@ -801,7 +871,7 @@ def coq_encoder(case):
         return ("(ELinEmb QS " + C.clist(range(nc), lambda j: f"gmat 6 {j} {n(case['stats'][j]['EMB_DIM'])} {n(ch)}") +
                 f" (gmat 1 0 {n(nc)} {n(ch)}))")
     if cls == "TimestampEncoder":
-        out = case["kw"]["out_size"]
+        out = case["kw"].get("out_size", 8)
         w = C.clist(range(nc), lambda j: C.clist(range(7), lambda k: f"gmat 8 {7 * j + k} {n(out)} {n(ch)}"))
         return f"(ETimestamp QS {n(out // 2)} (gvec 7 0 0 {n(out // 2)}) {w} (gmat 1 0 {n(nc)} {n(ch)}))"
     raise ValueError(cls)
